@@ -199,8 +199,8 @@ func Main[S any](t *testing.T, p Prop[S]) {
 			b, _ := json.Marshal(rep)
 			_ = os.WriteFile(out, b, 0o644)
 		}
-		if curFile != "" {
-			_ = os.Remove(curFile)
+		if curFile != "" && os.Getenv("VERIF_FREE") == "" {
+			_ = os.Remove(curFile) // kept in race-detector runs: a race is only reported when the test ends
 		}
 		if wantTrace {
 			_ = os.WriteFile(os.Getenv("VERIF_TRACEFILE"), []byte(strings.Join(traceLines, "\n")+"\n"), 0o644)
@@ -245,6 +245,13 @@ func Main[S any](t *testing.T, p Prop[S]) {
 			}
 		}
 		v, hits := verdict(out, known)
+		if os.Getenv("VERIF_FREE") != "" && v != nil {
+			// free-running executions exist for the race detector only: the oracles assume the
+			// quiescence the controlled scheduler provides (e.g. that the server has noticed a
+			// client going away before the next request arrives) and are not sound without it
+			rep.Extra["free_mode_oracle_hits"]++
+			v = nil
+		}
 		if !failing {
 			for _, h := range hits {
 				rep.Extra["known:"+h]++
